@@ -593,7 +593,8 @@ class Gen:
         r = self.rnd
         out = []
         for _ in range(r.randint(1, 4)):
-            k = r.choice(["assign", "assign", "assignx", "xy", "print", "tprint", "if", "ifx", "ret", "for", "blank", "expr"])
+            k = r.choice(["assign", "assign", "assignx", "xy", "print", "tprint", "if", "ifx", "ret", "for", "blank", "expr",
+                          "iffg", "forelse"])
             pad = " " * ind
             cm = r.choice(["", "", "", "", "  # pyrefact: ignore", "  # note", "  #pyrefact:skip_file"])
             if k == "assign":
@@ -605,6 +606,15 @@ class Gen:
                 out.append(f"{pad}y = {self.expr()}\n")
             elif k == "print":
                 out.append(f"{pad}print({self.expr()}){cm}\n")
+            elif k == "iffg":
+                kw = r.choice(["if", "if", "while"])
+                out.append(f"{pad}{kw} {self.expr(2)}:{cm}\n{pad}    f({self.expr(2)})\n")
+                out.append(f"{pad}{r.choice(['    ', ''])}g({self.expr(2)})\n")
+            elif k == "forelse":
+                inner = r.random() < 0.5
+                out.append(f"{pad}for i in {self.expr(2)}:\n{pad}    if {self.expr(2)}:\n{pad}        break\n")
+                out.append(f"{pad}    else:\n{pad}        g({self.expr(2)})\n" if inner
+                           else f"{pad}else:\n{pad}    g({self.expr(2)})\n")
             elif k == "tprint":
                 out.append(f"{pad}t = {self.expr()}\n{pad}print(t){cm}\n")
             elif k == "expr":
@@ -641,6 +651,11 @@ class Gen:
 
     def case(self):
         r = self.rnd
+        if r.random() < 0.12:
+            pat, repls = r.choice(RESTRUCTURE)
+            repl = r.choice(repls)
+            count = r.choice([0, 0, 1, 2])
+            return (pat, repl, self.source(), count)
         if r.random() < 0.55:
             pat, names = r.choice(EXPR_PATTERNS)
             repl = r.choice(expr_replacements(names) + [pat] + comment_replacements(names))
@@ -651,6 +666,49 @@ class Gen:
             repl = repl + " + {{zz}}" if repl else "{{zz}}"
         count = r.choice([0, 0, 0, 1, 1, 2, 3, -1])
         return (pat, repl, self.source(), count)
+
+
+# compound-statement / statement-sequence patterns whose replacement has the same non-blank lines up to
+# LEADING whitespace (a statement moved out of / into a block, if/else <-> for/else ...): leading
+# whitespace is block structure, so these are real rewrites although _do_rewrite's "whitespace-only
+# change" guard sees almost identical texts.  Each entry: pattern, replacements.
+IF_FG = "if {{c}}:\n    f({{a}})\n    g({{b}})"
+IF_F_G = "if {{c}}:\n    f({{a}})\ng({{b}})"
+FOR_IFELSE = "for {{i}} in {{it}}:\n    if {{c}}:\n        break\n    else:\n        g({{x}})"
+FOR_ELSE = "for {{i}} in {{it}}:\n    if {{c}}:\n        break\nelse:\n    g({{x}})"
+WHILE_FG = "while {{c}}:\n    f({{a}})\n    g({{b}})"
+WHILE_F_G = "while {{c}}:\n    f({{a}})\ng({{b}})"
+IF_IF = "if {{c}}:\n    if {{d}}:\n        f({{a}})\n    g({{b}})"
+IF_IF_IN = "if {{c}}:\n    if {{d}}:\n        f({{a}})\n        g({{b}})"
+RESTRUCTURE = [
+    (IF_FG, [IF_F_G, "if not {{c}}:\n    f({{a}})\ng({{b}})", IF_FG, "if {{c}}:\n    f({{a}})\n    g({{b}})  "]),
+    (IF_F_G, [IF_FG, IF_F_G]),
+    (FOR_IFELSE, [FOR_ELSE, FOR_IFELSE]),
+    (FOR_ELSE, [FOR_IFELSE]),
+    (WHILE_FG, [WHILE_F_G]),
+    (WHILE_F_G, [WHILE_FG]),
+    (IF_IF, [IF_IF_IN, "if {{c}}:\n    if {{d}}:\n        f({{a}})\ng({{b}})"]),
+    (IF_IF_IN, [IF_IF]),
+]
+RESTRUCTURE_SOURCES = [
+    "if q:\n    f(1)\n    g(2)\nh()\n",
+    "def k():\n    if q:\n        f(1)\n        g(2)\n    h()\nk()\n",
+    "def k():\n    if q:\n        f(1)\n    g(2)\n    h()\nk()\n",
+    "for i in (0, 0, 1):\n    if i:\n        break\n    else:\n        g(i)\nh()\n",
+    "def k(z):\n    for i in z:\n        if i:\n            break\n    else:\n        g(i)\n    return 1\n",
+    "while q:\n    f(q)\n    g(q + 1)\nif u:\n    f(u)\ng(2)",
+    "if a:\n    if b:\n        f(1)\n    g(2)\nif c:\n    if d:\n        f(3)\n        g(4)\n",
+    "if q:\n    f(1)\n    g(2)  # pyrefact: ignore\nif r:\n    f(3)\n    g(4)\nif s:\n    f(5)\n    g(6)\n",
+    "class K:\n    def m(self):\n        while self:\n            f(self)\n            g(0)\n        if self:\n            f(1)\n        g(2)\n",
+]
+
+
+def restructure_family():
+    for (pat, repls) in RESTRUCTURE:
+        for repl in repls:
+            for src in RESTRUCTURE_SOURCES:
+                for count in (0, 1):
+                    yield (pat, repl, src, count)
 
 
 def fixed_family(with_comments=False):
@@ -666,6 +724,7 @@ def fixed_family(with_comments=False):
             for src in FIXED_SOURCES:
                 for count in (0, 1, 2):
                     yield (pat, repl, src, count)
+    yield from restructure_family()
 
 
 # ------------------------------------------------------------------------------------------------
